@@ -64,6 +64,12 @@ def poke (target : Nat) (k v : Int) : Ents → Ents
     let inner' := poke target k v inner
     .cont k' t i (if i = target then .scalar k v inner' else inner') (poke target k v r)
 
+/-- `d1 | d2` for dictionaries without common keys: the entries of `e2` follow those of `e1` -/
+def append : Ents → Ents → Ents
+  | .nil, e => e
+  | .scalar k v r, e => .scalar k v (append r e)
+  | .cont k t i inner r, e => .cont k t i inner (append r e)
+
 end Ents
 
 /-- an attribute dictionary object with its content -/
@@ -321,6 +327,112 @@ def concat (fl : Flags) (n : Nat) (cls : Nat) (s1 s2 : MolO) : MolO :=
     atomsId := nAtomsId, atoms := atoms1 ++ atoms2, bondsId := nBondsId,
     bonds := copyBonds fl n (s1.atoms.map (·.id)) (atoms1.map (·.id)) nBonds s1.bonds ++
              copyBonds fl n (s2.atoms.map (·.id)) (atoms2.map (·.id)) (nBonds + bondsSize s1.bonds) s2.bonds,
+    arrays := if fl.zeroCharges then zeroSlot arrays else arrays }
+
+
+/-! ### copy constructors with keyword overrides, across classes -/
+
+/-- number of arrays of a class: Promolecule 1, Connectivity 2: none; CartesianGeometry 3, Structure 4: coords;
+Molecule 5 (and Conformer): coords, charges; ConformerEnsemble 6: coords, charges, weights -/
+def slotsOf (cls : Nat) : Nat :=
+  if cls = 3 ∨ cls = 4 then 1 else if cls = 5 then 2 else if cls = 6 then 3 else 0
+
+/-- arrays are carried over only within a family: single geometries (1), ensembles (2) -/
+def familyOf (cls : Nat) : Nat :=
+  if cls = 3 ∨ cls = 4 ∨ cls = 5 then 1 else if cls = 6 then 2 else 0
+
+def hasBondsCls (cls : Nat) : Bool := cls == 2 || cls == 4 || cls == 5 || cls == 6
+
+/-- the keyword arguments of a copy constructor call -/
+structure Override where
+  /-- `name=`, `charge=`, `mult=` as passed (`none` = keyword not given) -/
+  scalars : List (Option Int)
+  /-- entries of the dictionary passed as `attrib=` (keys not in the source; `.nil` = not given); its nested
+      containers are the caller's objects -/
+  attrib : Ents
+  /-- per array of the target class: the array passed (`coords=`, `atomic_charges=`, `weights=`) -/
+  arrays : List (Option (List Int))
+  /-- per array of the target class: the documented default content (NaN / 0 / 1 in the target's shape) -/
+  fills : List (List Int)
+  deriving Repr, Inhabited
+
+def noOverride : Override := { scalars := [], attrib := .nil, arrays := [], fills := [] }
+
+/-- `name or pm.name`, `charge or pm.charge`, `mult or pm.mult` -/
+def ovScalar (i : Nat) (given : Option Int) (old : Int) : Int :=
+  match given with
+  | none => old
+  | some v => if i = 0 then v else if v = 0 then old else v
+
+def ovScalars (given : List (Option Int)) (old : List Int) : List Int :=
+  old.zipIdx.map (fun (v, i) => ovScalar i ((given[i]?).join) v)
+
+/-- content of array `j` of the result: the override, else the source's array if it is carried over, else the default -/
+def ovArrayData (srcCls cls' : Nat) (ov : Override) (srcArrays : List (List Int)) (j : Nat) : List Int :=
+  match (ov.arrays[j]?).join with
+  | some d => d
+  | none =>
+    match (if familyOf srcCls = familyOf cls' ∧ j < slotsOf srcCls then srcArrays[j]? else none) with
+    | some d => d
+    | none => (ov.fills[j]?).getD []
+
+def molSize (o : MolO) : Nat :=
+  1 + o.attrib.size + 1 + atomsSize o.atoms + 1 + bondsSize o.bonds + o.arrays.length
+
+/-- `Cls2(src, name=…, charge=…, mult=…, attrib=…, coords=…, atomic_charges=…, weights=…)` for any class `Cls2`
+(the same class or another one): a deep copy of what the classes have in common, the overrides applied to the copy. -/
+def copyAs (fl : Flags) (n : Nat) (cls' : Nat) (ov : Override) (src : MolO) : MolO :=
+  let c := deepCopy fl n src
+  { c with
+    cls := cls',
+    scalars := ovScalars ov.scalars c.scalars,
+    attrib := { c.attrib with ents := c.attrib.ents.append ov.attrib },
+    bonds := if hasBondsCls cls' then c.bonds else [],
+    arrays := (List.range (slotsOf cls')).map (fun j =>
+      { id := n + molSize src + j, data := ovArrayData src.cls cls' ov (c.arrays.map (·.data)) j }) }
+
+/-! ### concatenate of any number of structures -/
+
+def concatAtoms (fl : Flags) (root : Nat) : Nat → List MolO → List AtomO
+  | _, [] => []
+  | k, s :: ss => copyAtoms fl root k s.atoms ++ concatAtoms fl root (k + atomsSize s.atoms) ss
+
+/-- bonds are re-targeted source by source: the new atoms of a source are those copied at its own offset -/
+def concatBonds (fl : Flags) (root : Nat) : Nat → Nat → List MolO → List BondO
+  | _, _, [] => []
+  | ka, kb, s :: ss =>
+    copyBonds fl root (s.atoms.map (·.id)) ((copyAtoms fl root ka s.atoms).map (·.id)) kb s.bonds ++
+      concatBonds fl root (ka + atomsSize s.atoms) (kb + bondsSize s.bonds) ss
+
+def totalAtomsSize (ss : List MolO) : Nat := (ss.map (fun s => atomsSize s.atoms)).sum
+def totalBondsSize (ss : List MolO) : Nat := (ss.map (fun s => bondsSize s.bonds)).sum
+
+/-- array `j` of the product: the arrays `j` of the sources, stacked -/
+def stackData (ss : List MolO) (j : Nat) : List Int :=
+  ss.flatMap (fun s => ((s.arrays[j]?).map (·.data)).getD [])
+
+/-- the smallest of a list of numbers (0 for the empty list) -/
+def minLen : List Nat → Nat
+  | [] => 0
+  | a :: l => l.foldl min a
+
+/-- number of arrays every source has -/
+def commonSlots (ss : List MolO) : Nat := minLen (ss.map (fun s => s.arrays.length))
+
+/-- `cls.concatenate(s1, …, sk)` for any number of structures (repetitions allowed) -/
+def concatN (fl : Flags) (n : Nat) (cls : Nat) (ss : List MolO) : MolO :=
+  let nAtomsId := n + 2
+  let nAtoms := nAtomsId + 1
+  let nBondsId := nAtoms + totalAtomsSize ss
+  let nBonds := nBondsId + 1
+  let nArr := nBonds + totalBondsSize ss
+  let arrays := (List.range (min (slotsOf cls) (commonSlots ss))).map (fun j =>
+    ({ id := nArr + j, data := stackData ss j } : Arr))
+  { id := n, cls := cls,
+    scalars := [0, (ss.map (fun s => scalarAt s 1)).sum, (ss.map (fun s => scalarAt s 2)).sum - 1],
+    attrib := { id := n + 1, ents := .nil },
+    atomsId := nAtomsId, atoms := concatAtoms fl n nAtoms ss,
+    bondsId := nBondsId, bonds := concatBonds fl n nAtoms nBonds ss,
     arrays := if fl.zeroCharges then zeroSlot arrays else arrays }
 
 def touches (x : Nat) (b : BondO) : Bool := b.a1 == x || b.a2 == x
